@@ -360,6 +360,12 @@ pub fn verify_weak_signature_stormlib<R: Read + std::io::Seek>(
     let n = BigUint::from_bytes_be(&public_key.n().to_bytes_be());
     let e = BigUint::from_bytes_be(&public_key.e().to_bytes_be());
 
+    // A signature is a residue modulo n; a larger value is another encoding of the same
+    // residue and is not accepted
+    if signature_int >= n {
+        return Ok(false);
+    }
+
     // Perform RSA operation: signature^e mod n
     let decrypted = signature_int.modpow(&e, &n);
     let mut decrypted_bytes = decrypted.to_bytes_be();
@@ -417,6 +423,12 @@ pub fn verify_weak_signature<R: Read>(
     let n = BigUint::from_bytes_be(&public_key.n().to_bytes_be());
     let e = BigUint::from_bytes_be(&public_key.e().to_bytes_be());
 
+    // A signature is a residue modulo n; a larger value is another encoding of the same
+    // residue and is not accepted
+    if signature_int >= n {
+        return Ok(false);
+    }
+
     // Perform RSA operation: signature^e mod n
     let decrypted = signature_int.modpow(&e, &n);
     let decrypted_bytes = decrypted.to_bytes_be();
@@ -459,6 +471,12 @@ pub fn verify_strong_signature<R: Read>(
     let signature_int = BigUint::from_bytes_be(&signature_be);
     let n = BigUint::from_bytes_be(&public_key.n().to_bytes_be());
     let e = BigUint::from_bytes_be(&public_key.e().to_bytes_be());
+
+    // A signature is a residue modulo n; a larger value is another encoding of the same
+    // residue and is not accepted
+    if signature_int >= n {
+        return Ok(false);
+    }
 
     // Perform RSA operation: signature^e mod n
     let decrypted = signature_int.modpow(&e, &n);
